@@ -20,7 +20,7 @@ RULE = ("Hypothesis-generated molecules (H2 sto-3g/6-31g, H3, H4 chain/ring/gene
         "non-zero / cyclic patterns, encodings jw/bk/scbk/jkmn in all spellings, both orderings, spin-summed and "
         "spin-resolved forms). Oracles: the solver's own energy (and, for VQE, <psi|H|psi> of the reference simulation); "
         "independent contraction of the (padded) matrices with integrals built from PySCF AO integrals; directly evaluated "
-        "<a+_p a_q>, <a+_p a+_q a_r a_s> on the Jordan-Wigner state. Non-trivial = at least one frozen orbital, or an open "
+        "<a+_p a_q>, <a+_p a+_q a_r a_s> on the Jordan-Wigner state. Part history: freeze_mos(other, inplace=False) copies (also chained, same and different active size) solved and contracted after energy_from_rdms was already called on the parent, parent re-checked afterwards; one VQE solver asked for RDMs at several parameter vectors in a row (HEA complex states included). Non-trivial = at least one frozen orbital, or an open "
         "shell, or (VQE) a non-zero parameter vector. Distinct = distinct canonical JSON of the case.")
 ASSUMPTIONS = ["numpy dense linear algebra", "PySCF AO integrals, SCF, FCI / CCSD / MP2 kernels are the solvers under the Tangelo wrappers; their energies are the reference the RDM contraction is compared with",
                "reference simulator and Pauli matrices in vlib/refsim.py, Fock-space ladder matrices in vlib/refops.py, integral transformation in vlib/refchem.py (self-tested)",
